@@ -10,8 +10,14 @@
 
 use crate::io::MultiLineWriter;
 use crate::sinks::core::MetricSink;
+#[cfg(cadence_verif)]
+use cadence_dsim::channel::{bounded, unbounded, Receiver, Sender, TrySendError};
+#[cfg(not(cadence_verif))]
 use crossbeam_channel::{bounded, unbounded, Receiver, Sender, TrySendError};
 use std::io::{self, ErrorKind, Write};
+#[cfg(cadence_verif)]
+use cadence_dsim::sync::Mutex;
+#[cfg(not(cadence_verif))]
 use std::sync::Mutex;
 
 // Default size of the buffer for buffered metric sinks, picked for
